@@ -5,7 +5,40 @@ from ..common import chunks, exc_name, generic_replay, pool_map
 RULE = ('histories on one Parser object: a byte stream (mostly valid concatenated encodings, ~20% garbage) split by a cut set '
         'into feed()/feed_byte() calls, with get_message / pending / iter() / next() calls interleaved; for short streams '
         '(quick <= 8 bytes, thorough <= 13) ALL 2^(n-1) cut sets; otherwise random cut sets; plus ParserQueue histories '
-        '(put_bytes / poll / iterpoll). Distinct by the op list; non-trivial = at least two feeding calls or one retrieval')
+        '(put_bytes / poll / iterpoll); unit-aligned chunkings (each chunk exactly one complete message, one message cut short, or stray '
+        'bytes) handed over as list / bytes / bytearray / tuple / iterator; streams leaving more than 1024 messages pending. Distinct by the op list; non-trivial = at least two feeding calls or one retrieval')
+
+
+def _as(bs, kind):
+    """the same bytes as another container type (the API takes any iterable of ints)"""
+    if kind == 'bytes':
+        return bytes(bs)
+    if kind == 'bytearray':
+        return bytearray(bs)
+    if kind == 'tuple':
+        return tuple(bs)
+    if kind == 'iter':
+        return iter(list(bs))
+    return list(bs)
+
+
+def unit_stream(rng, n):
+    """units: complete messages, messages cut short, stray data bytes, undefined / real-time status bytes"""
+    units = []
+    for _ in range(n):
+        r = rng.random()
+        if r < 0.5:
+            t, d = msgs.random_message(rng, max_sysex=4)
+            units.append(msgs.encode_ref(t, d))
+        elif r < 0.7:
+            t, d = msgs.random_message(rng, max_sysex=4, types=[x for x in msgs.TYPE_NAMES if x not in msgs.REALTIME and x != 'tune_request'])
+            enc = msgs.encode_ref(t, d)
+            units.append(enc[:rng.randrange(1, len(enc))])
+        elif r < 0.85:
+            units.append([rng.randint(0, 127) for _ in range(rng.randint(1, 2))])
+        else:
+            units.append([rng.choice([0xf4, 0xf5, 0xf7, 0xf8, 0xff, 0xf6])])
+    return units
 
 
 def run_history(ops):
@@ -30,12 +63,14 @@ def run_history(ops):
         try:
             if k == 'feed':
                 try:
-                    p.feed(op[1])
+                    p.feed(_as(op[1], op[2] if len(op) > 2 else 'list'))
                     fed.extend(op[1])
                     lines.append('none')
                 except (ValueError, TypeError) as e:
                     clean = False
                     lines.append('err ' + exc_name(e))
+                    if all(isinstance(b, int) and 0 <= b <= 255 for b in op[1]) and fail is None:
+                        fail = f'feed() raised {type(e).__name__} on bytes that are all in 0..255: {e}'
             elif k == 'feedbyte':
                 try:
                     p.feed_byte(op[1])
@@ -77,12 +112,14 @@ def run_history(ops):
             elif k == 'pput':
                 pq = pq or ParserQueue()
                 try:
-                    pq.put_bytes(op[1])
+                    pq.put_bytes(_as(op[1], op[2] if len(op) > 2 else 'list'))
                     fed.extend(op[1])
                     lines.append('none')
                 except (ValueError, TypeError) as e:
                     clean = False
                     lines.append('err ' + exc_name(e))
+                    if all(isinstance(b, int) and 0 <= b <= 255 for b in op[1]) and fail is None:
+                        fail = f'put_bytes() raised {type(e).__name__} on bytes that are all in 0..255: {e}'
             elif k == 'ppoll':
                 pq = pq or ParserQueue()
                 m = pq.poll()
@@ -103,8 +140,12 @@ def run_history(ops):
         try:
             rest = [msgs.canon_msg(m) for m in p] if pq is None else [msgs.canon_msg(m) for m in pq.iterpoll()]
             r = ref()
+            nrt = sum(1 for b in fed if b in parsing.DEFINED_RT)
+            have_rt = sum(1 for x in got + rest if x.split(' ')[0] in msgs.REALTIME)
             if got + rest != r:
                 fail = f'retrieved {got + rest} but parse_all of the same bytes gives {r}'
+            elif have_rt != nrt:
+                fail = f'{nrt} real-time bytes were fed but {have_rt} real-time messages were handed out (retrieved + drained)'
         except Exception as e:
             fail = f'draining / parse_all raised {type(e).__name__}: {e}'
     return lines, fail
@@ -181,6 +222,40 @@ def gen(ck):
         n = len(stream)
         cuts = sorted(set(rng.randrange(1, n) for _ in range(rng.randint(0, min(8, n - 1))))) if n > 1 else []
         hs.append(history_from_cuts(rng, stream, cuts, retrieval=0.5, bad=0.03))
+    # unit-aligned feeding: every chunk is exactly one complete message / one message cut short / stray bytes, through
+    # feed(), feed_byte() and put_bytes(), with the bytes handed over as list, bytes, bytearray, tuple or iterator
+    kinds = ['list', 'bytes', 'bytearray', 'tuple', 'iter']
+    for _ in range(4000 if not thorough else 60000):
+        units = unit_stream(rng, rng.randint(2, 7))
+        queue = rng.random() < 0.35
+        ops = []
+        niter = 0
+        for u in units:
+            if rng.random() < 0.3 and len(units) > 1:
+                # glue with the next piece sometimes: chunks that hold one and a half messages etc.
+                u = u + units[rng.randrange(len(units))][:rng.randint(0, 2)]
+            ops.append(('pput' if queue else 'feed', list(u), rng.choice(kinds)))
+            while rng.random() < 0.3:
+                if queue:
+                    ops.append(rng.choice([('ppoll',), ('piterpoll',)]))
+                else:
+                    r = rng.random()
+                    if r < 0.5:
+                        ops.append(('get',))
+                    elif r < 0.8:
+                        ops.append(('pending',))
+                    else:
+                        ops.append(('iternew',)); niter += 1
+        hs.append(ops)
+    # whole random streams in one call as bytes / bytearray (the container type must not matter)
+    for _ in range(1500 if not thorough else 20000):
+        stream = parsing.random_stream(rng, rng.randint(1, 40), rng.choice([0.2, 0.4]))
+        hs.append([('feed', stream, rng.choice(['bytes', 'bytearray', 'tuple'])), ('pending',)])
+    # many messages pending at once: nothing may be dropped however long nobody retrieves
+    for n in ([1025, 1500] if not thorough else [1024, 1025, 2048, 5000]):
+        hs.append([('feed', [0xf8] * n, 'list'), ('pending',), ('get',)])
+        hs.append([('feed', [0x90, 1, 2] * n, 'bytes'), ('pending',), ('get',)])
+        hs.append([('pput', [0xf8] * n, 'list'), ('ppoll',)])
     for _ in range(1500 if not thorough else 20000):
         stream = parsing.message_stream(rng, rng.randint(1, 8))
         n = len(stream)
